@@ -487,22 +487,39 @@ func (c *Check) applyErrors(fns []*ssa.Function) {
 		if fn.Parent() != nil || !strings.HasPrefix(fn.Name(), "apply") || errResultIndex(fn) < 0 {
 			continue
 		}
-		for _, call := range callsInOwn(fn) {
-			cc := call.Common()
-			if !cc.IsInvoke() {
-				continue
+		// the apply function and the new helpers split off it (a write in a helper must reach the helper's result, and
+		// the helper's result the apply function's)
+		homes := []*ssa.Function{fn}
+		for _, h := range helpersOf(fn) {
+			if h.Parent() == nil && errResultIndex(h) >= 0 && !strings.HasPrefix(h.Name(), "apply") {
+				homes = append(homes, h)
 			}
-			m := cc.Method.Name()
-			full := calleeFull(call)
-			if (m != "Create" && m != "Update") || (!strings.Contains(full, "k8s.io/client-go/kubernetes/typed") && !strings.Contains(full, "pkg/client/clientset")) {
-				continue
+		}
+		for _, home := range homes {
+			for _, call := range callsInOwn(home) {
+				cc := call.Common()
+				if !cc.IsInvoke() {
+					continue
+				}
+				m := cc.Method.Name()
+				full := calleeFull(call)
+				if (m != "Create" && m != "Update") || (!strings.Contains(full, "k8s.io/client-go/kubernetes/typed") && !strings.Contains(full, "pkg/client/clientset")) {
+					continue
+				}
+				cv, isCall := call.(*ssa.Call)
+				if !isCall {
+					continue
+				}
+				n++
+				okFlow := errFlowsToReturn(cv, home)
+				if okFlow && home != fn {
+					okFlow = false
+					if site, isC := liftTo(fn, cv).(*ssa.Call); isC {
+						okFlow = errFlowsToReturn(site, fn)
+					}
+				}
+				c.Ob("R8", fnName(fn)+": a failed "+m+" is reported to the caller", call.Pos(), okFlow, "the error of this write never reaches "+fn.Name()+"'s result (shadowed or dropped): the caller continues as if the object had been applied")
 			}
-			cv, isCall := call.(*ssa.Call)
-			if !isCall {
-				continue
-			}
-			n++
-			c.Ob("R8", fnName(fn)+": a failed "+m+" is reported to the caller", call.Pos(), errFlowsToReturn(cv, fn), "the error of this write never reaches "+fn.Name()+"'s result (shadowed or dropped): the caller continues as if the object had been applied")
 		}
 	}
 	if n < 12 {
